@@ -10,11 +10,12 @@ owns the scenario; this file owns
   * `study_function` - the function executed for every case of the study.  It lives in this importable
     module so that dill/pathos pickle it by reference.  It appends one line to a per-case counter
     file OUTSIDE the study directory (O_APPEND, one write) and returns {'v': f(x, y, ...), 'args': inputs}.
-  * the fault injection: proxies for the names `print`, `open`, `os`, `np` *inside the module under test*
+  * the fault injection: proxies for the names `open`, `os`, `np` *inside the module under test*
     (`TidalPy.utilities.multiprocessing.multiprocessing`), installed before the pool forks.  pathos /
     multiprocess use the `fork` start method here and dill pickles the nested `func_to_use` with its
     `__globals__` by reference to the module dictionary, so the workers see the proxies (the driver
     checks both facts and reports `inject_check` in its output; the property's selftest asserts them).
+    Kill points are recognised by file operations only, never by message text (see "fault injection" below).
     When the worker that handles case k reaches step s the proxy waits `delay_ms` (the other workers
     go on: that is the sampled schedule dimension) and sends SIGKILL to the whole process group -
     study parent, every pool worker, resource tracker - never to a single worker (a pool that lost one
@@ -28,6 +29,7 @@ counter_dir, raise_cases [int], kill {case, step, delay_ms} | null, work_ms, out
 """
 import json
 import os
+import re
 import signal
 import sys
 import time
@@ -36,13 +38,13 @@ CASE_STEPS = ('pre_log', 'post_log', 'post_mkdir', 'post_func', 'mid_savez', 'po
               'post_success_line')
 # kills in the study parent while it writes the header of tpy_mp.log (before any case exists):
 #   header_empty       log file created by open(..., 'w'), nothing written yet
-#   header_mid_inputs  log flushed after `lines` (>= 1) input lines (cut between input lines; with one axis: after its line)
-#   header_no_close    log flushed after all input lines, before the closing '------------' line
+#   header_mid_inputs  log holds the preamble and `lines` (>= 1) input lines (cut between input lines; one axis: after its line)
+#   header_no_close    log holds everything but its last line (the terminator of the input block)
 HEADER_STEPS = ('header_empty', 'header_mid_inputs', 'header_no_close')
 STEPS = CASE_STEPS + HEADER_STEPS
 
 CONFIG = {'counter_dir': None, 'raise_cases': (), 'work_ms': 0}
-KILL = {'case': None, 'step': None, 'delay_ms': 0, 'marker': None, 'lines': 1}
+KILL = {'case': None, 'step': None, 'delay_ms': 0, 'marker': None, 'lines': 1, 'n_inputs': 1, 'names': [], 'parent': None}
 
 
 def f_value(args):
@@ -63,6 +65,7 @@ def study_function(this_run_dir, *args):
     half = len(args) // 2
     values = [float(a) for a in args[:half]]
     k = _case_of_dir(this_run_dir)
+    W.update(phase='studied', case=k)
     line = ('%d\t%s\n' % (k, json.dumps(values))).encode()
     fd = os.open(os.path.join(CONFIG['counter_dir'], 'case_%d.cnt' % k), os.O_WRONLY | os.O_CREAT | os.O_APPEND, 0o644)
     try:
@@ -72,18 +75,44 @@ def study_function(this_run_dir, *args):
     if CONFIG['work_ms']:
         time.sleep(CONFIG['work_ms'] * ((k * 7 + 3) % 4) / 3000.0)
     if k in CONFIG['raise_cases']:
+        W.update(phase='idle')          # this case ends here (error branch): the next log append starts a new case
         raise RuntimeError('injected study failure for case %d' % k)
-    return {'v': f_value(values), 'args': np.asarray(values, dtype=float)}
+    result = {'v': f_value(values), 'args': np.asarray(values, dtype=float)}
+    _hit('post_func', k)                # the study function has done its work and is about to return
+    return result
 
 
 # ---- fault injection ---------------------------------------------------------------------------------
+#
+# Kill points are recognised by FILE OPERATIONS of the module under test, never by the text it prints or logs
+# (a reworded message must not silently disable the injection):
+#   header_*            open(<study>/tpy_mp.log, 'w') in the study parent; the cut is made by line position
+#                       counted from the END of what was written (last line = terminator, the n_inputs lines
+#                       before it = input lines), cross-checked against the harness' own axis names
+#   pre_log / post_log  open(<study>/tpy_mp.log, 'a') in a pool worker that is between cases (= the append that
+#                       starts a case), before the open / after the close.  The case number is not knowable from
+#                       file operations at that moment, so for these two steps `kill.case` = k selects the k-th
+#                       case START of the study (ticket taken under flock from a counter file outside the study)
+#   post_mkdir          os.makedirs of a directory `..._run_<k>` in a pool worker
+#   post_func           the harness' study function, just before it returns for case k
+#   mid/post_savez      np.savez in a pool worker (case = the case the worker's study function last ran)
+#   post_marker         close of open(<case dir>/mp_success.log, 'w')
+#   post_success_line   close of the open(<study>/tpy_mp.log, 'a') that follows the study function of case k
+# File/directory names used here (tpy_mp.log, mp_success.log, _run_<k>) are the on-disk format the restart logic
+# itself parses, not messages.
+#
+# Per-process state machine of a pool worker: idle --append-open--> started --study_function--> studied(case)
+#   studied --study function raises--> idle ;  studied --append-open ... close--> idle
 
-def _kill_now(step, case):
+W = {'phase': 'idle', 'case': None, 'ordinal': None}
+
+
+def _kill_now(step, case, note=''):
     """Reached the kill point: leave a note (outside the study directory), let the others run on for
     delay_ms, then SIGKILL the whole process group (including this process)."""
     try:
         fd = os.open(KILL['marker'], os.O_WRONLY | os.O_CREAT | os.O_APPEND, 0o644)
-        os.write(fd, ('%s %d pid=%d\n' % (step, case, os.getpid())).encode())
+        os.write(fd, ('%s %d pid=%d %s\n' % (step, case, os.getpid(), note)).encode())
         os.close(fd)
     except OSError:
         pass
@@ -99,38 +128,36 @@ def _hit(step, case):
         _kill_now(step, case)
 
 
-class _FileProxy:
-    """Wraps the file object returned by the module's `open`; acts when the `with` block is left."""
+def _in_worker():
+    return KILL['parent'] is not None and os.getpid() != KILL['parent']
 
-    def __init__(self, fh, path, mode):
+
+def _take_ticket():
+    """0, 1, 2, ...: position of this case start among all case starts of the study (all workers)."""
+    import fcntl
+    fd = os.open(KILL['marker'] + '.tickets', os.O_RDWR | os.O_CREAT, 0o644)
+    try:
+        fcntl.flock(fd, fcntl.LOCK_EX)
+        n = int(os.read(fd, 32) or b'0')
+        os.lseek(fd, 0, os.SEEK_SET)
+        os.write(fd, b'%d' % (n + 1))
+        return n
+    finally:
+        os.close(fd)
+
+
+class _FileProxy:
+    """Wraps the file object returned by the module's `open`; `on_close(proxy)` runs after the `with` block closed it."""
+
+    def __init__(self, fh, path, on_close=None, before_close=None):
         self._fh = fh
         self._path = path
-        self._mode = mode
-        self._case_text = None
-        self._success = None
-        self._header = mode == 'w' and os.path.basename(path) == 'tpy_mp.log'
-        self._input_lines = 0
-
-    def _header_cut(self, step):
-        if KILL['step'] == step:
-            self._fh.flush()        # the partial header reaches the file (models an unbuffered / large header)
-            _kill_now(step, KILL['case'])
+        self._on_close = on_close
+        self._before_close = before_close
+        self._chunks = []
 
     def write(self, text):
-        if self._header and isinstance(text, str):
-            if text == '------------\n':
-                self._header_cut('header_no_close')
-            r = self._fh.write(text)
-            if ':-:' in text:
-                self._input_lines += 1
-                if self._input_lines == KILL['lines']:
-                    self._header_cut('header_mid_inputs')
-            return r
-        if isinstance(text, str):
-            if text.startswith('MP Study:: Working on Case'):
-                self._case_text = int(text.split('Working on Case')[1].split('of')[0])
-            elif text.lstrip().startswith('Run: ') and 'completed successfully' in text:
-                self._success = int(text.lstrip().split()[1])
+        self._chunks.append(text)
         return self._fh.write(text)
 
     def __enter__(self):
@@ -138,16 +165,19 @@ class _FileProxy:
         return self
 
     def __exit__(self, *exc):
+        if exc[0] is None and self._before_close is not None:
+            self._before_close(self)
         r = self._fh.__exit__(*exc)
-        if exc[0] is None:
-            base = os.path.basename(self._path)
-            if base == 'tpy_mp.log':
-                if self._case_text is not None:
-                    _hit('post_log', self._case_text)
-                if self._success is not None:
-                    _hit('post_success_line', self._success)
-            elif base == 'mp_success.log':
-                _hit('post_marker', _case_of_dir(os.path.dirname(self._path)))
+        if exc[0] is None and self._on_close is not None:
+            self._on_close(self)
+        return r
+
+    def close(self):
+        if self._before_close is not None:
+            self._before_close(self)
+        r = self._fh.close()
+        if self._on_close is not None:
+            self._on_close(self)
         return r
 
     def __getattr__(self, name):
@@ -157,22 +187,53 @@ class _FileProxy:
         return iter(self._fh)
 
 
-def _open_proxy(path, mode='r', *a, **kw):
-    fh = open(path, mode, *a, **kw)
-    base = os.path.basename(str(path))
-    if base in ('tpy_mp.log', 'mp_success.log') and mode in ('a', 'w'):
-        if base == 'tpy_mp.log' and mode == 'w' and KILL['step'] == 'header_empty':
-            _kill_now('header_empty', KILL['case'])     # file exists and is empty
-        return _FileProxy(fh, str(path), mode)
-    return fh
-
-
-def _print_proxy(*a, **kw):
-    text = a[0] if a and isinstance(a[0], str) else ''
-    if text.startswith('MP Study:: Working on Case'):
-        _hit('pre_log', int(text.split('Working on Case')[1].split('of')[0]))
+def _header_cut(proxy):
+    """The whole header has been written (still inside the `with`): leave only its first part on disk and kill."""
+    step = KILL['step']
+    if step not in ('header_mid_inputs', 'header_no_close'):
         return
-    print(*a, **kw)
+    proxy._fh.flush()
+    lines = ''.join(str(c) for c in proxy._chunks).splitlines(keepends=True)
+    n_in = KILL['n_inputs']
+    # by position from the end: [... preamble ...] [n_in input lines] [terminator]
+    drop = 1 if step == 'header_no_close' else 1 + (n_in - KILL['lines'])
+    keep = lines[:max(0, len(lines) - drop)]
+    # cross-check against data the harness owns (axis names), never against the repository's separators
+    block = lines[-(n_in + 1):-1] if len(lines) > n_in else []
+    ok = len(block) == n_in and all(nm in ln for nm, ln in zip(KILL['names'], block))
+    os.truncate(proxy._path, len(''.join(keep).encode()))
+    _kill_now(step, KILL['case'], 'xcheck=%s kept_lines=%d of %d' % ('ok' if ok else 'MISMATCH', len(keep), len(lines)))
+
+
+def _open_proxy(path, mode='r', *a, **kw):
+    spath = str(path)
+    base = os.path.basename(spath)
+    if base == 'tpy_mp.log' and mode == 'w' and not _in_worker():
+        fh = open(path, mode, *a, **kw)
+        if KILL['step'] == 'header_empty':
+            _kill_now('header_empty', KILL['case'])     # file exists and is empty
+        return _FileProxy(fh, spath, before_close=_header_cut)
+    if not _in_worker():
+        return open(path, mode, *a, **kw)
+    if base == 'tpy_mp.log' and mode == 'a':
+        if W['phase'] == 'idle':
+            # the append that starts a case
+            ticket = _take_ticket()
+            W.update(phase='started', case=None, ordinal=ticket)
+            _hit('pre_log', ticket)
+            fh = open(path, mode, *a, **kw)
+            return _FileProxy(fh, spath, on_close=lambda p, t=ticket: _hit('post_log', t))
+        if W['phase'] == 'studied':
+            # the append that follows the study function of W['case'] (success line)
+            def done(p, k=W['case']):
+                W.update(phase='idle')
+                _hit('post_success_line', k)
+            return _FileProxy(open(path, mode, *a, **kw), spath, on_close=done)
+        return open(path, mode, *a, **kw)
+    if base == 'mp_success.log' and mode == 'w':
+        k = _case_of_dir(os.path.dirname(spath))
+        return _FileProxy(open(path, mode, *a, **kw), spath, on_close=lambda p, k=k: _hit('post_marker', k))
+    return open(path, mode, *a, **kw)
 
 
 class _OsProxy:
@@ -182,9 +243,10 @@ class _OsProxy:
     @staticmethod
     def makedirs(path, *a, **kw):
         r = os.makedirs(path, *a, **kw)
-        base = os.path.basename(os.path.normpath(str(path)))
-        if base.startswith('index_') and '_run_' in base:
-            _hit('post_mkdir', _case_of_dir(path))
+        if _in_worker():
+            m = re.search(r'_run_(\d+)$', os.path.basename(os.path.normpath(str(path))))
+            if m is not None:
+                _hit('post_mkdir', int(m.group(1)))
         return r
 
 
@@ -196,19 +258,17 @@ class _NpProxy:
         return getattr(self._np, name)
 
     def savez(self, file, *a, **kw):
-        path = str(file)
-        is_result = os.path.basename(path) == 'mp_results.npz'
-        case = _case_of_dir(os.path.dirname(path)) if is_result else None
-        if is_result:
-            _hit('post_func', case)
+        if not _in_worker() or W['case'] is None:
+            return self._np.savez(file, *a, **kw)
+        case = W['case']
         r = self._np.savez(file, *a, **kw)
-        if is_result:
-            if KILL['step'] == 'mid_savez' and KILL['case'] == case:
-                size = os.path.getsize(path)
-                with open(path, 'r+b') as fh:
-                    fh.truncate(max(1, size // 2))
-                _kill_now('mid_savez', case)
-            _hit('post_savez', case)
+        if KILL['step'] == 'mid_savez' and KILL['case'] == case:
+            path = str(file) if str(file).endswith('.npz') else str(file) + '.npz'
+            size = os.path.getsize(path)
+            with open(path, 'r+b') as fh:
+                fh.truncate(max(1, size // 2))
+            _kill_now('mid_savez', case)
+        _hit('post_savez', case)
         return r
 
 
@@ -217,11 +277,11 @@ def header_lines(case, n_inputs):
     return 1 + int(case) % max(1, int(n_inputs) - 1)
 
 
-def install_faults(mod, kill, marker, n_inputs=1):
+def install_faults(mod, kill, marker, names=('?',)):
     KILL.update(case=int(kill['case']), step=str(kill['step']), delay_ms=int(kill.get('delay_ms', 0)),
-                marker=marker, lines=header_lines(kill['case'], n_inputs))
+                marker=marker, lines=header_lines(kill['case'], len(names)), n_inputs=len(names), names=list(names),
+                parent=os.getpid())
     assert KILL['step'] in STEPS, KILL['step']
-    mod.print = _print_proxy
     mod.open = _open_proxy
     mod.os = _OsProxy()
     mod.np = _NpProxy(mod.np)
@@ -249,7 +309,12 @@ def _jsonable(results):
                'result_type': None}
         try:
             rec['len'] = len(el)
-            cn, idx, res = el[0], el[1], el[2]
+            if all(hasattr(el, a) for a in ('case_number', 'input_index', 'result')):
+                cn, idx, res = el.case_number, el.input_index, el.result
+                rec['access'] = 'by_name'
+            else:
+                cn, idx, res = el[0], el[1], el[2]       # plain tuple (or longer record): first three fields
+                rec['access'] = 'positional'
             rec['case_number'] = int(cn) if float(cn) == int(cn) else repr(cn)
             rec['index'] = [int(i) for i in idx]
             rec['result_type'] = type(res).__name__
@@ -282,7 +347,7 @@ def main(argv):
                      work_ms=int(spec.get('work_ms') or 0))
     payload = {'status': None, 'inject_check': me._inject_check(mod), 'pgid': os.getpgrp(), 'pid': os.getpid()}
     if spec.get('kill'):
-        me.install_faults(mod, spec['kill'], spec['kill_marker'], n_inputs=len(spec['inputs']))
+        me.install_faults(mod, spec['kill'], spec['kill_marker'], names=[i[0] for i in spec['inputs']])
     inputs = []
     for name, nice, start, end, scale, must, n, as_tuple in spec['inputs']:
         must = tuple(must) if as_tuple else list(must)
